@@ -403,12 +403,16 @@ class AssignedFeatureCounter(AbstractCounter):
         output_file.close()
         linear_output_file.close()
 
+    # the statistics lines that follow the feature rows of a counts file (written by merge_counts / dump);
+    # a feature id may itself start with an underscore, so only these exact names end the table
+    STAT_LINE_PREFIXES = ("__ambiguous\t", "__no_feature\t", "__not_aligned\t", "__usable\t")
+
     def convert_counts_to_tpm(self, normalization_str=NormalizationMethod.simple.name):
         normalization = NormalizationMethod[normalization_str]
         total_counts = defaultdict(float)
         with open(self.output_counts_file_name) as f:
             for line in f:
-                if line.startswith('_'): break
+                if line.startswith(self.STAT_LINE_PREFIXES): break
                 if line.startswith('#'): continue
                 fs = line.rstrip().split('\t')
                 if self.ignore_read_groups:
@@ -431,7 +435,7 @@ class AssignedFeatureCounter(AbstractCounter):
         with open(self.output_tpm_file_name, "w") as outf:
             with open(self.output_counts_file_name) as f:
                 for line in f:
-                    if line.startswith('_'): break
+                    if line.startswith(self.STAT_LINE_PREFIXES): break
                     if line.startswith('#'):
                         outf.write(line.replace("count", "TPM"))
                         continue
